@@ -33,16 +33,16 @@ Scopes(tier) ==
         Sc({"genemetrics_seg"}, 3, 0, LabelsFour, {2}, {1}, ThrTwo, {0, 2}, SexNone),
         Sc({"breaks"}, 4, 0, LabelsThree, {0}, {1}, ThrTwo, {1, 2}, SexNone) >>
     ELSE <<
-        Sc({"by_gene"}, 6, 0, LabelsPlain, {0, 1, 2, 3}, {1}, ThrTwo, {0}, SexNone),
-        Sc({"by_gene"}, 4, 3, LabelsPlain, {0, 1, 2}, {1}, ThrTwo, {0}, SexNone),
+        Sc({"by_gene"}, 6, 0, LabelsPlain, {0, 1, 2}, {1}, ThrTwo, {0}, SexNone),
+        Sc({"by_gene"}, 3, 3, LabelsPlain, {0, 2}, {1}, ThrTwo, {0}, SexNone),
         Sc({"by_gene"}, 5, 0, LabelsComma, {0, 1, 2, 3}, {1}, ThrTwo, {0}, SexNone),
-        Sc({"squash"}, 5, 0, LabelsPlain, {0, 1, 2}, {1}, ThrTwo, {0}, SexNone),
-        Sc({"squash"}, 3, 2, LabelsFour, {0, 2}, {1}, ThrTwo, {0}, SexNone),
-        Sc({"genemetrics"}, 4, 0, LabelsPlain, {0, 2}, {1, 2}, ThrThree, {0, 1, 2, 3}, SexThree),
-        Sc({"genemetrics"}, 3, 2, LabelsFour, {2}, {2}, ThrThree, {0, 2, 3}, SexThree),
-        Sc({"genemetrics_seg"}, 4, 0, LabelsFour, {0, 2}, {1}, ThrThree, {0, 1, 2, 3}, SexNone),
-        Sc({"genemetrics_seg"}, 2, 2, LabelsFour, {2}, {1}, ThrTwo, {0, 2}, SexThree),
-        Sc({"breaks"}, 5, 0, LabelsFour, {0, 2}, {1}, ThrTwo, {1, 2, 3}, SexNone) >>
+        Sc({"squash"}, 5, 0, LabelsFour, {0, 2}, {1}, ThrTwo, {0}, SexNone),
+        Sc({"squash"}, 3, 2, LabelsFour, {2}, {1}, ThrTwo, {0}, SexNone),
+        Sc({"genemetrics"}, 4, 0, LabelsFour, {0, 2}, {1, 2}, ThrThree, {0, 2, 3}, SexTwo),
+        Sc({"genemetrics"}, 2, 2, LabelsFour, {2}, {2}, ThrThree, {0, 2, 3}, SexThree),
+        Sc({"genemetrics_seg"}, 4, 0, LabelsFour, {2}, {1}, ThrTwo, {0, 2, 3}, SexNone),
+        Sc({"genemetrics_seg"}, 2, 2, LabelsFour, {2}, {1}, ThrTwo, {2}, SexThree),
+        Sc({"breaks"}, 5, 0, LabelsThree, {0}, {1}, ThrTwo, {1, 2, 3}, SexNone) >>
 
 LabSeqs(labels, n) == UNION {[1..m -> labels] : m \in 1..n}
 LabChoices(sc) == IF sc.len2 = 0 THEN {<<a>> : a \in LabSeqs(sc.labels, sc.len1)}
